@@ -3,11 +3,13 @@ C19 — Control paragraph is a case-insensitive mapping; typed fields are faithf
   C19   input: a construction route and a history of mapping operations; obs: the result of each
   C19t  input: control fields (name, value) in any ASCII case;           obs: parse_control_fields
   C19m  input: a maintainer name and address;                            obs: MaintainerField split / print
-(the render / re-read clause is checked with the header parser model under C08: op C19r)
+  C19r  input: the (name, value) pairs of a paragraph;                    obs: Debian822(Debian822(pairs).dumps()).to_dict()
 -/
 import DebInspector.Props.Common
 import DebInspector.Model.Control
 import DebInspector.Model.Addr
+import DebInspector.Model.Email
+import DebInspector.Model.Unsign
 
 namespace Props.C19
 open Proto Py Model.Control
@@ -146,6 +148,42 @@ def modelM (i : InputM) : ObsM :=
 def holdsOnM (i : InputM) (o : ObsM) : Bool :=
   !wfM i || o == some (i.name, some i.address, i.name ++ " <".toList ++ i.address ++ ['>'])
 
+/-! ### R: render a paragraph and read the rendering back -/
+
+abbrev InputR := List (Str × Str)
+abbrev ObsR := Except PyExc (List (Str × Str))
+
+/-- `Debian822.dumps()`: one `Name: value` per item, names in their conventional capitalisation -/
+def dumps822 (d : PyDict) : Str :=
+  join ['\n'] (d.map fun kv => normalizeName kv.1 ++ ':' :: ' ' :: kv.2) ++ ['\n']
+
+/-- `Debian822(text).to_dict()`: empty text gives the empty mapping, otherwise the header-style paragraph data of the
+text with a PGP signature removed -/
+def fromText822 (text : Str) : List (Str × Str) :=
+  if text.isEmpty then [] else Model.Email.getParagraphData (Model.Unsign.removeSignature text)
+
+def modelR (i : InputR) : ObsR :=
+  .ok (fromText822 (dumps822 (construct lowerAscii (.pairs i))))
+
+/-- a field name both parsers read: a letter, then letters, digits and hyphens -/
+def nameOkR (n : Str) : Bool := headP isAsciiAlpha n && n.all fun c => isAsciiAlnum c || c == '-'
+
+/-- a value as the mapping holds it after parsing: no carriage return, no white space at either end, every line after the
+first indented with a space or a tab -/
+def valueOkR (v : Str) : Bool :=
+  !v.contains '\r' && !headP isSpace v && !lastP isSpace v &&
+  (splitChar '\n' v).tail.all fun l => headP (fun c => c == ' ' || c == '\t') l
+
+def distinctLower (i : InputR) : Bool :=
+  let ns := i.map fun kv => lowerAscii kv.1
+  ns.length == (ns.foldl (fun acc n => if acc.contains n then acc else acc ++ [n]) []).length
+
+def wfR (i : InputR) : Bool :=
+  !i.isEmpty && i.all (fun kv => nameOkR kv.1 && valueOkR kv.2) && distinctLower i
+
+def holdsOnR (i : InputR) (o : ObsR) : Bool :=
+  !wfR i || decide (o = .ok (i.map fun kv => (lowerAscii kv.1, kv.2)))
+
 /-! ### wire format -/
 
 def decPairs : Val → Option (List (Str × Str))
@@ -242,5 +280,11 @@ def checkM : Props.Check InputM ObsM :=
       | none => .exc "OutOfModel"
       | some (n, e, d) => .list [.str n, (match e with | none => .none | some s => .str s), .str d],
     model := modelM, holdsOn := holdsOnM }
+
+def checkR : Props.Check InputR ObsR :=
+  { decI := decPairs,
+    decO := Props.decExcept decPairs,
+    encO := Props.encExcept fun kvs => .list (kvs.map fun kv => .list [.str kv.1, .str kv.2]),
+    model := modelR, holdsOn := holdsOnR }
 
 end Props.C19
